@@ -265,7 +265,10 @@ class Harness:
                         h.cancel_log.append((tid, st.name, h.qindex))
                 return await local.Scheduler.cancel_task(self, tid)
 
-        self.scheduler = RecScheduler(self.workdir, self.case["max_cores"], task_states=RecordingDict(self))
+        import itertools
+
+        # small ids keep the recorded histories readable (production starts the counter at the current time)
+        self.scheduler = RecScheduler(self.workdir, self.case["max_cores"], task_states=RecordingDict(self), tid_generator=itertools.count())
         self.server = local.Server(self.scheduler)
         await self.finished
 
